@@ -15,6 +15,8 @@ head portion first, every portion's items top of the stack first):
   `ok alloc=<handed out> bump=<b′> written=<w> portions=<p′>` or `panic`
 * `psnext <hash> <count> <metahex>` — `ProbeSequence::new` and `count` calls of `next`: `E<b>`/`T<b>`/`H<b>`/`X` …
 * `psalloc <hash> <metahex>` — `allocate_bucket`: `some <b>` / `none`
+* `pslookup <hash> <metahex> <buckets labelled with the page>` — `Store::load_page` (`PageLoader::probe`, `try_complete`,
+  retry): `some <b>` / `none`
 * `pshash <seedhex16> <pageidhex32>` — `hash_raw_page_id`: the hash in decimal
 -/
 namespace Nomt.Driver
@@ -77,6 +79,18 @@ def allocLine (line : String) : String :=
       | some none => "none"
       | some (some b) => s!"some {b}"
     | _, _ => "bad-op"
+  | ["pslookup", hash, metahex, mine] =>
+    -- `PageLoader::probe` + `try_complete` with the caller's retry (`Store::load_page`): `mine` lists the buckets
+    -- whose data page is labelled with the page looked up
+    match hash.toNat?, (bytesOfHex metahex).bind decodeSlots, parseNatList mine with
+    | some h, some m, some mine =>
+      if m.isEmpty then "bad-op" else
+      let T : Probe.Table := { slots := m, label := fun b => if mine.contains b then 1 else 0 }
+      match Probe.lookupLoop T 1 (2 * m.length + 4) (Probe.PS.new h m.length) with
+      | none => "FUEL"
+      | some none => "none"
+      | some (some b) => s!"some {b}"
+    | _, _, _ => "bad-op"
   | ["pshash", seedhex, pidhex] =>
     match bytesOfHex seedhex, bytesOfHex pidhex with
     | some seed, some pid =>
